@@ -28,6 +28,7 @@ from src.core.constants import Language
 from src.core.linter_utils import has_file_content, load_linter_config
 from src.core.types import Violation
 from src.core.violation_utils import get_violation_line, has_python_noqa
+from src.linter_config.directive_markers import has_bare_line_ignore
 from src.linter_config.ignore import get_ignore_parser
 
 from .conditional_verbose_analyzer import ConditionalVerboseAnalyzer
@@ -248,7 +249,4 @@ class ConditionalVerboseRule(BaseLintRule):
 
     def _has_generic_thailint_ignore(self, line_text: str) -> bool:
         """Check for generic thailint: ignore (no brackets)."""
-        if "# thailint: ignore" not in line_text:
-            return False
-        after_ignore = line_text.split("# thailint: ignore")[1].split("#")[0]
-        return "[" not in after_ignore
+        return has_bare_line_ignore(line_text)
